@@ -184,3 +184,32 @@ fn finish_preserves_declaration_order_witness() {
     kani::cover!(true);
     core::mem::forget(map);
 }
+
+/// Modular twin of new_call_pattern_full: `exact_calls` is replaced by its VERIFIED in-place contract (`stub_verified`).
+//@K props=C04 tier=quick label=full feat=std fn=MockAssembler::new_call_pattern[modular:exact_calls-by-contract]
+#[kani::proof]
+#[kani::unwind(4)]
+#[kani::stub_verified(CallCountExpectation::exact_calls)]
+fn new_call_pattern_modular() {
+    let cur: usize = kani::any();
+    let minimum: usize = kani::any();
+    let (_, k) = ch::any_exactness();
+    let mode = any_mode();
+    let in_order = mode == PatternMatchMode::InOrder;
+    kani::assume(!in_order || k == 0);
+    kani::assume(!in_order || minimum <= usize::MAX - cur);
+    let mut asm = MockAssembler::new();
+    asm.current_call_index = cur;
+    let p = asm.new_call_pattern(mk_builder(mode, minimum, k, None, 0));
+    if in_order {
+        assert!(p.ordered_call_index_range.start == cur && p.ordered_call_index_range.end == cur + minimum);
+        assert!(asm.current_call_index == cur + minimum);
+    } else {
+        assert!(p.ordered_call_index_range.end <= p.ordered_call_index_range.start);
+        assert!(asm.current_call_index == cur);
+    }
+    kani::cover!(in_order);
+    kani::cover!(!in_order);
+    core::mem::forget(p);
+    core::mem::forget(asm);
+}
